@@ -5,7 +5,7 @@ use libfuzzer_sys::fuzz_target;
 fuzz_target!(|data: &[u8]| {
     static ONCE: std::sync::Once = std::sync::Once::new();
     ONCE.call_once(|| std::panic::set_hook(Box::new(|_| {})));
-    if data.len() < 3 {
+    if data.len() < 7 {
         return;
     }
     let hex: String = data.iter().map(|b| format!("{:02x}", b)).collect();
